@@ -79,6 +79,10 @@ P('C03', theorems=['Tcs.red_step', 'Tcs.C03_reduction', 'Tcs.C03_reduction_subli
   owned={'conc.trace', 'conc.resp', 'dump.own', 'dump.other'},
   oracles=[O.o_c03],
   plan={'quick': [{'scen': 'sched', 'args': {}, 'n': 180}], 'thorough': [{'scen': 'sched', 'args': {}, 'n': 4000}, {'scen': 'sched', 'args': {'probe': '1', 'corpus': '0'}, 'n': 300}]})
+P('C04', theorems=[],
+  owned={'av.kind', 'as.kind', 'http.status.av', 'http.status.as', 'http.headers.av', 'snap.accept', 'state.dump'},
+  oracles=[O.o_c04],
+  plan={'quick': [{'scen': 'crash', 'args': {}, 'n': 8}], 'thorough': [{'scen': 'crash', 'args': {'subsets': 10}, 'n': 60}, {'scen': 'crash', 'args': {'big': '1'}, 'n': 6}]})
 P('C05', theorems=['Tcs.fault_safety', 'Tcs.runF_noFault', 'Tcs.commitId_sql', 'Tcs.commitLast_getChildVersion', 'Tcs.commitLast_addVersion', 'Tcs.commitLast_addSnapshot', 'Tcs.commitLast_getSnapshot', 'Tcs.commitLast_ensureFixed'],
   module='Tcs.Proofs.FaultSafety',
   owned={'av.kind', 'gcv.kind', 'as.kind', 'gs.kind', 'http.status', 'state.dump', 'fault.consumed'},
@@ -131,6 +135,8 @@ def histogram(runs):
     return dict(h)
 
 def nontrivial_key(r):
+    if r.ws[0] == 'crash':
+        return None if r.impl == 'same' else ('crash', r.ws[2].split('/')[0], r.ws[3], r.ws[4], hash(r.impl) % 100000)
     if r.ws[0] == 'res':
         ih = parse_http_obs(r.impl)
         return ('res', r.ws[1], (ih or {}).get('status'), (r.meta or {}).get('kinds'))
